@@ -53,6 +53,10 @@ def programs(tier):
                                                i18n_target="'fr'", i18n_domain='shop'),
                                             el('img', static=[['alt', 'Out']], i18n_attributes='alt')),
         [['site', 'int', 0], ['lang', 'int', 1]], target_language='de')
+    add('with-encoding-option', doc(el('x', el('a', 'two', i18n_translate=''), el('img', static=[['alt', 'Logo']], i18n_attributes='alt'),
+                                       el('p', 'three ', el('b', 'n', i18n_name='nm', condition=py('cv')), i18n_translate=''),
+                                       i18n_domain='shop', i18n_context='ctx', i18n_target="'fr'")),
+        [['cv', 'bool', 0]], target_language='de', options={'encoding': 'utf-8'})
     add('target-expression', doc(el('x', el('a', 'in', i18n_translate=''), i18n_target='lang'),
                                  el('x', el('a', 'dflt', i18n_translate=''), i18n_target='default')),
         [['lang', 'int', 0]], target_language='de')
@@ -154,6 +158,11 @@ def macro_pairs():
     a = el('div', hide(macro), {'tag': 'u', 'children': [], 'use_macro': "macros['m']"}, T('after'))
     b = el('div', hide(body(el('b', T('slot-default')))), body(el('b', T('slot-default'))), T('after'))
     out.append(('render-target-language', a, b, [], {'target_language': 'de'}))
+    # 3b a whole template used as a macro (include) inside i18n settings: its body starts from the caller's
+    lib = el('article', T('lib-text'), el('img', static=[['alt', 'L']], i18n_attributes='alt'))
+    a = el('div', el('y', {'tag': 'u', 'children': [], 'use_macro': 'lib'}, **caller_kw), T('after'))
+    b = el('div', el('y', el('article', T('lib-text'), el('img', static=[['alt', 'L']], i18n_attributes='alt')), **caller_kw), T('after'))
+    out.append(('whole-template-under-settings', a, b, [], {'target_language': 'de', 'lib': lib}))
     # 4 filler with i18n:attributes and a computed target at the call site (macro without a context of its own)
     macro4 = el('p', T('in-macro'), el('x', el('b', T('slot-default'), define_slot='s'), T('in-macro-2'),
                                        i18n_domain='md', i18n_target="'fr'"), define_macro='m')
@@ -202,7 +211,7 @@ def plan(tier, seed):
                 'i18n:attributes, translate inside repeat; the translation function is a recording function whose return '
                 'value exposes msgid, mapping, default, domain, context and target language, so output equality checks '
                 'every argument; bindings decided by the solver; 4 macro programs compared with hand-written METAL-free '
-                'equivalents (a slot filler translating content / attributes keeps the settings of the place where it was '
+                'equivalents (a whole template used as macro under i18n settings, a slot filler translating content / attributes keeps the settings of the place where it was '
                 'written, the default slot content uses the macro\'s, the macro body starts from the caller\'s resp. the '
                 'render-time target language). Outside: implicit_i18n_translate, i18n:name under repeat, i18n:ignore/comment/data.'
                 % len(jobs)),
